@@ -1,7 +1,7 @@
 CONSTANTS
   K = 3
   MaxW = 2
-  MaxU = 3
+  MaxU = 2
   MaxNum = 620
   Dens = {1, 4}
   FdrLen = 5
